@@ -147,6 +147,10 @@ pub enum Recipe {
     Random(Vec<u8>),
     /// exact bytes
     Bytes(Vec<u8>),
+    /// authentic frame with verbatim FOpts bytes (<= 15) and verbatim FRMPayload plaintext on any port,
+    /// including the combination the specification forbids a sender to produce (FOpts together with a
+    /// non-empty port-0 payload); only C04 generates it
+    AuthRaw { delta: i64, confirmed: bool, fopts: Vec<u8>, port: Option<u8>, frm: Vec<u8> },
 }
 
 impl Recipe {
@@ -177,6 +181,7 @@ impl Recipe {
             Recipe::MaxFit { confirmed } => json!({"max_fit": confirmed}),
             Recipe::Random(b) => json!({"random": hex(b)}),
             Recipe::Bytes(b) => json!({"bytes": hex(b)}),
+            Recipe::AuthRaw { delta, confirmed, fopts, port, frm } => json!({"auth_raw": {"delta": delta, "confirmed": confirmed, "fopts": hex(fopts), "port": port, "frm": hex(frm)}}),
         }
     }
     pub fn from_json(v: &Value) -> Recipe {
@@ -185,6 +190,9 @@ impl Recipe {
             let cmds = |x: &Value| x.as_array().map(|a| a.iter().map(Cmd::from_json).collect()).unwrap_or_default();
             return Recipe::Auth { delta: o["delta"].as_i64().unwrap_or(1), confirmed: o["confirmed"].as_bool().unwrap_or(false), port: o["port"].as_u64().map(|p| p as u8), payload_len: u(&o["payload_len"]) as u8,
                 fopts: cmds(&o["fopts"]), frm_cmds: cmds(&o["frm_cmds"]), ack: o["ack"].as_bool().unwrap_or(false), fpending: o["fpending"].as_bool().unwrap_or(false) };
+        }
+        if let Some(o) = v.get("auth_raw") {
+            return Recipe::AuthRaw { delta: o["delta"].as_i64().unwrap_or(1), confirmed: o["confirmed"].as_bool().unwrap_or(false), fopts: unhex(o["fopts"].as_str().unwrap_or("")), port: o["port"].as_u64().map(|p| p as u8), frm: unhex(o["frm"].as_str().unwrap_or("")) };
         }
         if let Some(o) = v.get("replay") {
             return Recipe::Replay(u(o) as u16);
@@ -316,6 +324,18 @@ impl Net {
                 let mut fo = fo;
                 fo.truncate(15);
                 let d = DataDesc { ftype: if *confirmed { FType::ConfDown } else { FType::UnconfDown }, dev_addr: s.dev_addr, adr: false, adr_ack_req: false, ack: *ack, f_pending: *fpending, fcnt: base(&s, *delta), fopts: fo, payload };
+                encode_data(&d, &s.nwk, Some(&s.app))
+            }
+            Recipe::AuthRaw { delta, confirmed, fopts, port, frm } => {
+                let Some(s) = sess else { return vec![0x60, 0, 0, 0, 0, 0, 0, 0, 1, 2, 3, 4] };
+                let mut fo = fopts.clone();
+                fo.truncate(15);
+                let payload = match port {
+                    None => RefPayload::None,
+                    Some(0) => RefPayload::Mac(frm.clone()),
+                    Some(p) => RefPayload::Data { port: *p, data: frm.clone() },
+                };
+                let d = DataDesc { ftype: if *confirmed { FType::ConfDown } else { FType::UnconfDown }, dev_addr: s.dev_addr, adr: false, adr_ack_req: false, ack: false, f_pending: false, fcnt: base(&s, *delta), fopts: fo, payload };
                 encode_data(&d, &s.nwk, Some(&s.app))
             }
             Recipe::Replay(i) => {
